@@ -61,6 +61,7 @@ func init() {
 		"time.Now":                intrHavocResult,
 		"encoding/binary.Read":    intrBinaryRead,
 		"sort.Search":             intrSortSearch,
+		"sort.Slice":              intrSortSlice,
 		"github.com/dgraph-io/badger/v3.DB.Update": intrBadgerTxn,
 		"github.com/dgraph-io/badger/v3.DB.View":   intrBadgerTxn,
 		"time.Since":                               intrHavocResult,
@@ -322,6 +323,25 @@ func (vc *VC) invoke(fr *Frame, st *State, recv Val, c *ssa.CallCommon, args []V
 		vc.oblige(st, "nopanic", "nopanic.nil:"+what, "method call on nil interface", pos, not(eq(recv.If[0], "0")))
 	}
 	key := ifaceMethodKey(c)
+	// devirtualisation: the interface value was built in this execution from a value of a known
+	// concrete type (its tag is a literal): call that type's method
+	if recv.K == KIface {
+		if ct, known := vc.tagTypes[recv.If[0]]; known {
+			if callee := vc.eng.prog.LookupMethod(ct, m.Pkg(), m.Name()); callee != nil && callee.Blocks != nil {
+				ckey := funcKey(callee)
+				rv := vc.unbox(recv.If[1], ct)
+				cargs := append([]Val{rv}, args...)
+				if con := vc.eng.cs.Funcs[ckey]; con != nil && !con.Flags["inline"] {
+					return vc.applyContract(fr, st, callee, con, cargs, pos, what)
+				}
+				if fr.depth < maxInlineDepth && vc.canInline(callee) {
+					res, out := vc.execFunc(callee, cargs, nil, st, fr.depth+1, nil, false)
+					*st = *out
+					return packResults(callee.Signature, res)
+				}
+			}
+		}
+	}
 	if vc.eng.pureMethods[key] && recv.K == KIface {
 		return vc.pureMethodCall(st, recv, key, m, args)
 	}
@@ -836,4 +856,81 @@ func intrSortSearch(vc *VC, fr *Frame, st *State, args []Val, c *ssa.CallCommon,
 	bp := evalAt(bvSub(i, i64(1)), pos0)
 	vc.assume(st, implies(pos0, not(bp)))
 	return intVal(i)
+}
+
+// sort.Slice(x, less): the elements of slice x are rearranged (modelled: arbitrary new contents of the
+// window, same header) such that afterwards no later element is `less` than an earlier one. The
+// ordering fact is obtained by executing the literal `less` closure once on two fresh indices in the
+// post-state and generalising the resulting term over all index pairs a < b; when the closure cannot be
+// executed to a closed term only the havoc remains. That the result is a permutation of the old
+// contents is not modelled.
+func intrSortSlice(vc *VC, fr *Frame, st *State, args []Val, c *ssa.CallCommon, pos token.Position) Val {
+	ret := Val{K: KTuple, T: types.NewTuple()}
+	mi, ok := c.Args[0].(*ssa.MakeInterface)
+	if !ok {
+		vc.note("sort.Slice on a non-literal interface: heap havocked")
+		vc.havocAllHeap(st)
+		return ret
+	}
+	x := vc.value(fr, mi.X)
+	if x.K != KSlice {
+		vc.havocAllHeap(st)
+		return ret
+	}
+	et := x.T.Underlying().(*types.Slice).Elem()
+	for _, lf := range leavesOf(et) {
+		if lf.bad {
+			vc.havocAllHeap(st)
+			return ret
+		}
+		hn := elemHeap(et, lf.path)
+		inner := arraySort(sortIdx, lf.sort)
+		hs := arraySort(sortRef, inner)
+		h := vc.heapGet(st, hn, hs)
+		na := vc.sc.fresh("sorted", inner)
+		i := "i!q"
+		vc.sc.assert(fmt.Sprintf("(forall ((%s %s)) (! (=> (not (and (bvsle %s %s) (bvslt %s %s))) (= (select %s %s) (select %s %s))) :pattern ((select %s %s))))",
+			i, sortIdx, x.Sl[1], i, i, bvAdd(x.Sl[1], x.Sl[2]), na, i, sel(h, x.Sl[0]), i, na, i))
+		vc.heapSet(st, hn, hs, vc.sc.define("h", hs, store(h, x.Sl[0], na)))
+	}
+	cl := args[1]
+	if cl.Clo == nil {
+		vc.note("sort.Slice with a non-literal less function: only the rearrangement is modelled")
+		return ret
+	}
+	fn := cl.Clo.Fn.(*ssa.Function)
+	ci := vc.sc.fresh("sl.a", sortIdx)
+	cj := vc.sc.fresh("sl.b", sortIdx)
+	mark := vc.sc.mark()
+	s2 := st.clone()
+	vc.assume(s2, and(sx("bvsle", i64(0), ci), sx("bvslt", ci, cj), sx("bvslt", cj, x.Sl[2])))
+	wasOff := vc.safetyOff
+	vc.safetyOff = true // the closure is run by the library on valid indices
+	res, _ := vc.execFunc(fn, []Val{intVal(cj), intVal(ci)}, cl.Clo.Bindings, s2, fr.depth+1, nil, false)
+	vc.safetyOff = wasOff
+	if len(res) != 1 || res[0].K != KScalar {
+		vc.note("sort.Slice: less function not executable symbolically; ordering not assumed")
+		return ret
+	}
+	// the term must be closed over (ci, cj): nothing defined while executing may mention them,
+	// except the ground idx equalities
+	closed := true
+	for _, ln := range vc.sc.lines[mark:] {
+		if (strings.Contains(ln, ci) || strings.Contains(ln, cj)) && !strings.HasPrefix(ln, "(assert (= (idx ") && !strings.HasPrefix(ln, "(declare-const pc!") && !strings.HasPrefix(ln, "(assert (= pc!") {
+			closed = false
+		}
+	}
+	t := res[0].S
+	if d, isDef := vc.sc.defs[t]; isDef {
+		t = d
+	}
+	if !closed || !(strings.Contains(t, ci) || strings.Contains(t, cj)) {
+		vc.note("sort.Slice: less function's result is not a closed term over its indices; ordering not assumed")
+		return ret
+	}
+	a, b := "a!qs", "b!qs"
+	gen := strings.ReplaceAll(strings.ReplaceAll(t, ci, a), cj, b)
+	vc.assume(st, fmt.Sprintf("(forall ((%s %s) (%s %s)) (=> (and (bvsle %s %s) (bvslt %s %s) (bvslt %s %s)) (not %s)))",
+		a, sortIdx, b, sortIdx, i64(0), a, a, b, b, x.Sl[2], gen))
+	return ret
 }
